@@ -129,17 +129,17 @@ Theorem C14_server_open_is_reader_open : forall sc root src fl content src' sche
   parse_var_header content = inr (schema_bytes, ud) ->
   schema_bytes <> [] ->
   parse_wire_schema schema_bytes = inr counts ->
-  match server_open VPinned sc root (Some counts) with
+  match server_open VCurrent sc root (Some counts) with
   | Some t => reader_open sc root src = inr (mkReader t src' 0 0 rst0 (PM.empty _) RNil (Some counts) ud)
   | None => reader_open sc root src = inl (PBad EInvalid)
   end.
-Proof. exact server_open_pinned_is_reader_open. Qed.
+Proof. exact server_open_current_is_reader_open. Qed.
 Print Assumptions C14_server_open_is_reader_open.
 
-Theorem C14_current_accepts_implies_reader_open_accepts : forall sc root d t,
+Theorem C14_repair_only_refuses_more : forall sc root d t,
   server_open VCurrent sc root d = Some t -> server_open VPinned sc root d = Some t.
 Proof. exact server_open_current_pinned. Qed.
-Print Assumptions C14_current_accepts_implies_reader_open_accepts.
+Print Assumptions C14_repair_only_refuses_more.
 
 (* inherent limit of exchanging field counts: schemas with the same count list are indistinguishable *)
 Theorem C14_inherent_limit : forall v md,
